@@ -6,6 +6,7 @@ package checks
 import (
 	"encoding/json"
 	"fmt"
+	"os"
 	"time"
 
 	"verif/harness"
@@ -66,4 +67,18 @@ func aux(p *harness.Program, i int) uint64 {
 		return p.Aux[i]
 	}
 	return 0
+}
+
+var curCasePath = os.Getenv("VERIF_CURCASE")
+
+// noteCase records the case about to be executed, so that the driver can
+// attribute a process-level failure (race detector abort, crash) to it.
+func noteCase(prop, kind string, prog []byte) {
+	if curCasePath == "" {
+		return
+	}
+	rp := harness.Replay{Property: prop, Kind: kind, Program: json.RawMessage(prog)}
+	if b, err := json.Marshal(&rp); err == nil {
+		_ = os.WriteFile(curCasePath, b, 0o644)
+	}
 }
